@@ -11,7 +11,8 @@ from .callgraph import arg_for_param
 
 def _method_view(em, name):
     """the method with its helpers pasted in (rules about what happens inside it, wherever the code now lives)"""
-    return em.view(_method(em, name))
+    md = em.repo.lookup_method(em.YP, 'match_dynamic')
+    return em.view(_method(em, name), keep=(md,) if md is not None else ())
 
 
 def _method(em, name):
@@ -341,13 +342,12 @@ def _touches_ctx(g):
     return any(isinstance(x, ast.Attribute) and x.attr == 'eval_context' for x in own_nodes(g.node))
 
 
-def context_key_sites(em, include_inlined=False):
+def context_key_sites(em, include_inlined=False, views=None):
     """reads and writes of eval_context with a computed key: (func, node, 'read'|'write', key expr); functions are seen with
     their helpers pasted in (a key built by a helper is a key of its caller); a site that was pasted in from a helper which
     itself accesses the context is reported for that helper only, unless include_inlined"""
     out = []
-    for f0 in em.repo.all_functions(('engine',)):
-        f = em.view(f0)
+    for f in (views if views is not None else [em.view(f0) for f0 in em.repo.all_functions(('engine',))]):
         for n in own_nodes_ordered(f.node):
             g = getattr(n, '_from', None)
             if g is not None and not include_inlined and _touches_ctx(g):
@@ -527,7 +527,7 @@ def rule_exact_then_variadic(em, rep, rid):
     rep.rule(rid, 'in query() the variadic key name_n is consulted only as the default of the exact lookup name_<arity> '
                   '(nested get, conditional expression, or a second lookup guarded by the failure of the first)')
     q = _method_view(em, 'query')
-    sites = [(n, key_templates(q, k)) for f, n, kind, k in context_key_sites(em, include_inlined=True) if f is q and kind == 'read']
+    sites = [(n, key_templates(q, k)) for f, n, kind, k in context_key_sites(em, include_inlined=True, views=[q]) if kind == 'read']
     exact = [n for n, ts in sites if ts and all(key_shape(t) == 'exact' for t in ts)]
     var = [n for n, ts in sites if any(key_shape(t) == 'variadic' for t in ts)]
     key = q.qname + ':lookup'
